@@ -38,6 +38,9 @@ func fullRangeElem(fa *FA, v ssa.Value) (string, bool, string) {
 			return "", false, "loop bound is " + iv.N.String() + ", not len(container)"
 		}
 	}
+	if why := fa.earlyExit(iv); why != "" {
+		return "", false, why
+	}
 	// a sub-slice of a parameter (keys[1:]) is not the whole parameter
 	if sl, ok := cont.(*ssa.Slice); ok && (sl.Low != nil || sl.High != nil) {
 		return "", false, "the container enumerated is a sub-slice, not the whole list"
